@@ -505,6 +505,91 @@ func runC03(c *Ctx) {
 		}
 	}
 	c.Expect("C03-R7", "string index/slice sites on the pull path", nIdx, 6)
+	// constant index into a slice (a registry response decides how long Parts, Layers … are)
+	nSl := 0
+	for _, fn := range pullFns {
+		for _, ff := range withLits(fn) {
+			g := c.G(ff)
+			seq := map[string]int{}
+			for _, h := range g.Find(func(n ast.Node) bool {
+				x, ok := n.(*ast.IndexExpr)
+				if !ok {
+					return false
+				}
+				if _, isSl := info.TypeOf(x.X).Underlying().(*types.Slice); !isSl {
+					return false
+				}
+				_, isC := core.ConstInt(info, x.Index)
+				return isC
+			}) {
+				x := h.Node.(*ast.IndexExpr)
+				// an index on the left of an assignment into a freshly made slice is out of scope; keep every read and write
+				nSl++
+				idx, _ := core.ConstInt(info, x.Index)
+				sp := core.PathOf(info, x.X)
+				ok := false
+				if sp.Valid() {
+					for _, a := range g.AtomsAt(h.Loc) {
+						// switch len(x) { case K: … x[c] … }
+						if a.Tag != nil && a.Val {
+							if p, isLen := isLenOf(info, a.Tag); isLen && p.Key() == sp.Key() {
+								if v, isC := core.ConstInt(info, a.Expr); isC && v >= idx+1 {
+									ok = true
+								}
+							}
+							continue
+						}
+						be, isB := ast.Unparen(a.Expr).(*ast.BinaryExpr)
+						if !isB {
+							continue
+						}
+						p, isLen := isLenOf(info, be.X)
+						if !isLen || p.Key() != sp.Key() {
+							continue
+						}
+						v, isC := core.ConstInt(info, be.Y)
+						if !isC {
+							continue
+						}
+						switch {
+						case be.Op == token.GTR && a.Val && v >= idx,
+							be.Op == token.GEQ && a.Val && v >= idx+1,
+							be.Op == token.LEQ && !a.Val && v >= idx,
+							be.Op == token.LSS && !a.Val && v >= idx+1,
+							be.Op == token.EQL && !a.Val && v == 0 && idx == 0,
+							be.Op == token.NEQ && a.Val && v == 0 && idx == 0,
+							be.Op == token.EQL && a.Val && v >= idx+1:
+							ok = true
+						}
+					}
+					// same-condition guard: len(x) > c && … x[c] …
+					ast.Inspect(h.Top, func(n ast.Node) bool {
+						and, isB := n.(*ast.BinaryExpr)
+						if !isB || and.Op != token.LAND || !within(and.Y, x) {
+							return true
+						}
+						for _, a := range core.Atoms([]core.Fact{{Expr: and.X, Val: true}}) {
+							if be, isC := ast.Unparen(a.Expr).(*ast.BinaryExpr); isC && a.Val {
+								if p, isLen := isLenOf(info, be.X); isLen && p.Key() == sp.Key() {
+									if v, isK := core.ConstInt(info, be.Y); isK && ((be.Op == token.GTR && v >= idx) || (be.Op == token.GEQ && v >= idx+1)) {
+										ok = true
+									}
+								}
+							}
+						}
+						return true
+					})
+				}
+				k := core.ExprString(x)
+				seq[k]++
+				if seq[k] > 1 {
+					k += "#" + itoa(seq[k])
+				}
+				c.Check("C03-R7", ff.Key()+" slice-index:"+k, c.Pos(x), ok, "constant index into "+core.ExprString(x.X)+" without a dominating length test: the length is decided by a registry response")
+			}
+		}
+	}
+	c.Count("C03-R7 constant slice indexes on the pull path", nSl)
 	// blobDownload.Digest stores
 	if fDigest != nil {
 		stores := 0
